@@ -307,9 +307,9 @@ int main(int argc, char** argv)
                             {
                                 if (times != chk)
                                     continue;  // quick: (off,off) and (on,on)
-                                // quick: (field, g1, slots 1|2|8), (linear, g3, slots 2),
-                                // (field, g3, slots 2)
-                                bool keep = (has_field(a) && g == 1) || (g == 3 && s == 2);
+                                // quick: (field, g1, slots 1|2|8), (linear, g1, slots 2),
+                                // (linear, g3, slots 2), (field, g3, slots 2)
+                                bool keep = (has_field(a) && g == 1) || s == 2;
                                 if (!keep)
                                     continue;
                             }
